@@ -71,14 +71,21 @@ def assemble_subroutine(
     make_args_operands=True,
     replace_constants=True,
     flavour: Optional[Flavour] = None,
+    reserved_registers=None,
 ) -> Subroutine:
     """
     Convert a `ProtoSubroutine` into a `Subroutine`, given a Flavour (default: vanilla).
+
+    `reserved_registers`: registers that hold live values although this subroutine
+    does not mention them (e.g. claimed with `Builder.new_register` in an earlier
+    subroutine); they are never used as scratch registers for constants.
     """
     if make_args_operands:
         _make_args_operands(pre_subroutine)
     if replace_constants:
-        pre_subroutine.commands = _replace_constants(pre_subroutine.commands)
+        pre_subroutine.commands = _replace_constants(
+            pre_subroutine.commands, reserved_registers=reserved_registers
+        )
     if assign_branch_labels:
         _assign_branch_labels(pre_subroutine)
 
@@ -542,8 +549,12 @@ for index in [2, 3, 4, 5]:
     _REPLACE_CONSTANTS_EXCEPTION.append((GenericInstr.MEAS_BASIS, index))
 
 
-def _replace_constants(commands: List[Union[ICmd, BranchLabel]]):
+def _replace_constants(
+    commands: List[Union[ICmd, BranchLabel]], reserved_registers=None
+):
     current_registers = get_current_registers(commands)
+    if reserved_registers is not None:
+        current_registers |= {str(reg) for reg in reserved_registers}
 
     def reg_and_set_cmd(value, tmp_registers: List[Register], lineno=None):
         for i in range(2**REG_INDEX_BITS):
